@@ -2,7 +2,7 @@
 the conformance pipelines, probes known-finding witnesses.  Returns the level category."""
 import json, os
 
-from . import common, iterp, randgen, rowsp, tlc
+from . import common, iterp, randgen, rowsp, tlc, vmp
 from .common import ToolError, log, pats, read_ndjson, texts
 
 CHECKS = {}
@@ -25,9 +25,19 @@ def setup():
                 if "*** Errors" in p.stdout or p.returncode != 0:
                     print(p.stdout[-2000:])
                     return 2
-    for prof, n in (("core", 1), ("core", 2), ("core", 3), ("core", 4), ("ctxfill", 0)):
-        pats(prof, n)
-    texts("sig6", 3)
+    for prof, ns in (("core", (1, 2, 3, 4)), ("cond", (1, 2, 3, 4)), ("iter", (1, 2, 3)), ("wild", (1, 2, 3)), ("plain", (1, 2, 3)),
+                     ("case", (1, 2, 3)), ("lb", (1, 2, 3, 4)), ("ctxfill", (0,)), ("condctx", (0,)), ("wildshapes", (0,))):
+        for n in ns:
+            pats(prof, n)
+    for sig, n in (("sig6", 2), ("sig6", 3), ("wide", 2), ("wide", 3), ("case4", 3), ("ab", 3)):
+        texts(sig, n)
+    for n in (1, 2, 3):
+        inject_export("core", n)
+    inject_export("ctxfill", 0)
+    common.export("expand_fixtures", "fixtures", 0)
+    common.export("templates_3", "templates", 3)
+    common.export("escapes_2", "escapes", 2)
+    common.export("sizefix", "sizefix", 0)
     print("setup ok")
     return 0
 
@@ -41,6 +51,18 @@ def sample(ctx, recs, k):
         return list(recs)
     idx = sorted(ctx.rng.sample(range(len(recs)), k))
     return [recs[i] for i in idx]
+
+
+def hybrid_model(ctx, name, files, k=None, textsig=("sig6", 2)):
+    """MC_Hybrid on Compile.tla programs of the given exported spaces (design level), answers compared with RefSem"""
+    recs = []
+    for f in files:
+        recs += read_ndjson(f)
+    if k is not None:
+        recs = sample(ctx, recs, k)
+    path = os.path.join(common.workdir(ctx.prop), "hybrid_%s.pats.ndjson" % name)
+    common.write_ndjson(path, renumber_ids(recs))
+    return vmp.run_hybrid(ctx, "model_" + name, path, texts(*textsig), use="model", sem=True)
 
 
 def core_space(ctx):
@@ -90,8 +112,11 @@ def c01(ctx):
     ctx.rule = ("cells = pattern x text x char-boundary offset; patterns: Gram!P exhaustive up to the node bound (exported by TLC), "
                 "Contexts x Fillers, seeded random ASTs; texts: all strings over {a,b,c,e-acute,LF,-} up to the length bound; "
                 "non-trivial = cells in which RefSem!Search has a match (counted by TLC); overall span compared")
+    hybrid_model(ctx, "pat123", [pats("core", 1), pats("core", 2), pats("core", 3)], None if ctx.quick else 20000)
     for name, recs, tpath in core_space(ctx):
         rowsp.run_rows(ctx, name, recs, tpath, "span", excl)
+    cf = [r for r in read_ndjson(pats("ctxfill", 0))]
+    vmp.run_tracevm(ctx, "ctxfill", vmp.with_cells(ctx.rng, renumber_ids(sample(ctx, cf, 500 if ctx.quick else 1801)), texts("sig6", 3), 3 if ctx.quick else 10), texts("sig6", 3))
     probe_known(ctx, "span")
     ctx.assumptions = ROWS_ASSUME
     return "model_checking"
@@ -260,6 +285,7 @@ def c13(ctx):
             ctx.violation("pattern %s: %s at node %s: facts [min,const,hard,g0,g1]=%s, witnessed lengths %s (compile: %s %s)"
                           % (j["pat"], j["what"], json.dumps(j["node"]), j["facts"], j["witnessed_lengths"], j["st"], j["ek"]),
                           dict(kind="facts", ast=j["ast"], ng=j["ng"], pat=j["pat"], texts=tab, got=j))
+    hybrid_model(ctx, "lb", [pats("lb", 1), pats("lb", 2), pats("lb", 3)] + ([] if ctx.quick else [pats("lb", 4)]), None, textsig=("wide", 2))
     for name, recs in rspaces:
         rowsp.run_rows(ctx, "rows_" + name, recs, tw, "caps", excl)
     probe_known(ctx, "caps")
@@ -324,7 +350,7 @@ def c20(ctx):
     hists = [h["h"] for h in r.tagged("REPLAY")]
     ctx.cov["mc_savelog"] = dict(constants=consts, max_ops=maxops, distinct_states=r.distinct, generated=r.generated, histories_emitted=len(hists))
     # deeper model checking without emission (the refinement itself, one more operation)
-    r2 = tlc.run_mc(ctx, "MC_SaveLog", cfg.replace("MaxOps = %d" % maxops, "MaxOps = %d" % (maxops + (2 if ctx.quick else 1))), name="MC_SaveLog_deep",
+    r2 = tlc.run_mc(ctx, "MC_SaveLog", cfg.replace("MaxOps = %d" % maxops, "MaxOps = %d" % (maxops + (2 if ctx.quick else 1))), name="MC_SaveLog_deep", coverage=False,
                     env=dict(VH_EMIT="0"), workers=16, xmx="24g", timeout=7200)
     mc_violation(ctx, r2, "MC_SaveLog_deep")
     ctx.cov["mc_savelog_deep"] = dict(max_ops=maxops + (2 if ctx.quick else 1), distinct_states=r2.distinct, generated=r2.generated)
@@ -364,6 +390,9 @@ def c20(ctx):
         ctx.cov.setdefault("replay", {})[name] = st
         ctx.traces += st["ok"]
         ctx.evaluations += st["operations"]
+    # (b) program-level replay of the same discipline: real regex runs, slot vector compared with the whole-copy VM model at every step
+    cf = read_ndjson(pats("ctxfill", 0)) + read_ndjson(pats("condctx", 0))
+    vmp.run_tracevm(ctx, "program_level", vmp.with_cells(ctx.rng, renumber_ids(sample(ctx, cf, 400 if ctx.quick else 2179)), texts("sig6", 3), 3 if ctx.quick else 8), texts("sig6", 3))
     nt = 0
     for h in hists + longh:
         seen_save = False
@@ -411,8 +440,10 @@ def c15(ctx):
                   ("random", randgen.random_pats(ctx.rng, "cond", 30000, depth=4, max_nodes=18), t3),
                   ("condctx_L4", cc, t4), ("cond123_L4", renumber_ids([r for r in small]), t4)]
     ctx.exhaustive = False
+    hybrid_model(ctx, "cond", [pats("cond", 3), pats("cond", 4), pats("condctx", 0)], 1200 if ctx.quick else None)
     for name, recs, tpath in spaces:
         rowsp.run_rows(ctx, name, recs, tpath, "caps", excl)
+    vmp.run_tracevm(ctx, "condctx", vmp.with_cells(ctx.rng, renumber_ids(cc), t3, 3 if ctx.quick else 10), t3)
     probe_known(ctx, "caps")
     ctx.assumptions = ROWS_ASSUME
     return "model_checking"
@@ -527,6 +558,63 @@ def iter_spaces(ctx, part):
 
 
 ITER_ASSUME = ROWS_ASSUME + ["Api.tla mirrors the iterator state machines of lib.rs; its laws are model-checked for every leaf behaviour in MC_Iter"]
+
+
+def wild_space(ctx, nsmall, nrand):
+    wild = []
+    for n in (1, 2, 3):
+        wild += read_ndjson(pats("wild", n))
+    shapes = read_ndjson(pats("wildshapes", 0))
+    rnd = randgen.random_pats(ctx.rng, "wild", nrand, depth=3 if ctx.quick else 4, max_nodes=14 if ctx.quick else 18)
+    return shapes, renumber_ids(sample(ctx, wild, nsmall)), rnd
+
+
+@check("C05")
+def c05(ctx):
+    ctx.rule = ("(a) contract records: every public search/iterate/split/replace entry point under catch_unwind on the unrestricted grammar (self and forward "
+                "references, \\K and \\G anywhere, conditionals, nullable loops, hand-written self-reference shapes) x texts mixing 1-4 byte characters x every "
+                "offset; TLC judges every raw byte offset (start <= end <= len, both on character boundaries) and that no call panicked or ran away; "
+                "(b) MC_Hybrid on the REAL programs of those patterns: VM.tla runs every (program, text, offset), invariants at every state: no panic site "
+                "reached, ix on a boundary, capture slots valid, answer valid; (c) real VM traces validated step by step against VM.tla; "
+                "non-trivial = result rows inspected / VM steps validated")
+    tw3 = texts("wide", 3)
+    tw2 = texts("wide", 2)
+    shapes, small, rnd = wild_space(ctx, 900 if ctx.quick else 4000, 900 if ctx.quick else 20000)
+    for name, recs in (("shapes", shapes), ("wild123", small), ("random_wild", rnd)):
+        iterp.run_iters(ctx, name, recs, tw3, "c5", "", parts="fi,ci,sp,co,rows" if name != "shapes" else "fi,ci,sp,co,rows,rp")
+    # (b) design-level search for reachable panic sites, driven by what the real compiler emits
+    progs = vmp.dump_progs(ctx, "wildprogs", renumber_ids(shapes + sample(ctx, small, 500 if ctx.quick else 3000) + sample(ctx, rnd, 300 if ctx.quick else 3000)))
+    vmp.run_hybrid(ctx, "real_wild", progs, tw2 if ctx.quick else tw3, use="real", sem=False, extra_invs=())
+    # (c) L1
+    tr = vmp.with_cells(ctx.rng, renumber_ids(shapes + sample(ctx, small, 300 if ctx.quick else 2000) + sample(ctx, rnd, 300 if ctx.quick else 2000)), tw3, 3)
+    vmp.run_tracevm(ctx, "wild", tr, tw3)
+    ctx.exhaustive = False
+    ctx.assumptions = ["VM.tla marks as `panic` the places where vm.rs would slice out of range / off a boundary / unwrap None; memory safety itself is not modelled",
+                       "panics, aborts and runaway iterators of the code under test are outcome values in the records"]
+    return "model_checking"
+
+
+@check("C07")
+def c07(ctx):
+    ctx.rule = ("limit records = per (pattern, text, offset): the unlimited search with hook statistics (backtracks B, instructions) and the same search under "
+                "backtrack limits {0,1,2,3,5,10,100,10^6,B-1,B}; TLC runs VM.tla on the REAL program for every limit and requires the recorded outcome, the "
+                "exact threshold (L >= B: unlimited answer, L < B: BacktrackLimitExceeded), no StackOverflow / limit error by default on these tiny inputs, and "
+                "instructions <= StepBound(B, |prog|, |text|); model: MC_Hybrid with Terminates/NoRuntimeError on real programs of the unrestricted grammar; "
+                "non-trivial = records whose unlimited run backtracks")
+    tw3 = texts("wide", 3)
+    t3 = texts("sig6", 3)
+    shapes, small, rnd = wild_space(ctx, 600 if ctx.quick else 4000, 500 if ctx.quick else 10000)
+    cf = read_ndjson(pats("ctxfill", 0))
+    lim1 = vmp.with_cells(ctx.rng, renumber_ids(shapes + small + rnd), tw3, 3 if ctx.quick else 6)
+    lim2 = vmp.with_cells(ctx.rng, renumber_ids(sample(ctx, cf, 500 if ctx.quick else 1801)), t3, 3 if ctx.quick else 8)
+    vmp.run_limits(ctx, "wild", lim1, tw3)
+    vmp.run_limits(ctx, "ctxfill", lim2, t3)
+    progs = vmp.dump_progs(ctx, "wildprogs", renumber_ids(shapes + sample(ctx, small, 500 if ctx.quick else 3000) + sample(ctx, rnd, 300 if ctx.quick else 3000)))
+    vmp.run_hybrid(ctx, "real_wild", progs, texts("wide", 2) if ctx.quick else tw3, use="real", sem=False, extra_invs=("Terminates", "NoRuntimeError"))
+    ctx.exhaustive = False
+    ctx.assumptions = ["StepBound is this framework's own generous bound ((B+1) x |prog| x (|text|+2) x (max bounded-repeat count + 2))",
+                       "the default limits (10^6) cannot be reached legitimately by inputs of this size, so any runtime error by default is a finding"]
+    return "model_checking"
 
 
 @check("C08")
